@@ -296,7 +296,8 @@ class DefaultWorker(Worker):
                 else:
                     out, err, ret, val, exc = dispatcher(task)
 
-            except Exception as e:
+            except (Exception, SystemExit) as e:
+                # NOTE: a payload calling `sys.exit()` must still be reported
                 exc = [repr(e), '\n'.join(ru.get_exception_trace())]
 
             finally:
